@@ -192,12 +192,14 @@ Verdict(t, r, c, std) ==
 RowPort(r, std, i) == IF std.mr = r THEN i ELSE Sorted(std.map)[i]
 ColPort(c, std, j) == IF std.mc = c THEN j ELSE Sorted(std.map)[j]
 
-MRows(r, std) == {RowPort(r, std, i) : i \in 1..std.mr}
-MCols(c, std) == {ColPort(c, std, j) : j \in 1..std.mc}
+MRows(r, std) == IF std.mr = r THEN 1..r ELSE Range(std.map)
+MCols(c, std) == IF std.mc = c THEN 1..c ELSE Range(std.map)
 
 MCellMap(r, c, std) ==
-    [ij \in (1..std.mr) \X (1..std.mc) |->
-        <<RowPort(r, std, ij[1]), ColPort(c, std, ij[2])>>]
+    LET sm == TLCEval(Sorted(std.map))
+        rp(i) == IF std.mr = r THEN i ELSE sm[i]
+        cp(j) == IF std.mc = c THEN j ELSE sm[j]
+    IN [ij \in (1..std.mr) \X (1..std.mc) |-> <<rp(ij[1]), cp(ij[2])>>]
 
 (* the S cells follow the port map as given (not sorted) *)
 SCellMap(std) ==
@@ -237,13 +239,14 @@ Close(R, p, n) ==
                           \E b \in 1..p : <<ac[1], b>> \in R /\ <<b, ac[2]>> \in R},
                p, n - 1)
 
-Connected(p, std) ==
-    LET k == SKnow(p, std)
-        base == {ab \in (1..p) \X (1..p) :
+ConnectedK(p, k) ==
+    LET base == {ab \in (1..p) \X (1..p) :
                     \/ ab[1] = ab[2]
                     \/ k[ab] # "z"
                     \/ k[<<ab[2], ab[1]>>] # "z"}
     IN Close(base, p, p)
+
+Connected(p, std) == ConnectedK(p, TLCEval(SKnow(p, std)))
 
 SColKnown(p, std, j) == \A i \in 1..p : SKnow(p, std)[<<i, j>>] # "u"
 SRowKnown(p, std, i) == \A j \in 1..p : SKnow(p, std)[<<i, j>>] # "u"
@@ -258,29 +261,36 @@ SRowKnown(p, std, i) == \A j \in 1..p : SKnow(p, std)[<<i, j>>] # "u"
 
 Eq(sys, i, j) == [sys |-> sys, row |-> i, col |-> j]
 
-Equations(t, r, c, std) ==
-    LET p    == Ports(r, c)
-        conn == Connected(p, std)
-    IN IF IsT(t)
-       THEN {Eq(0, ij[1], ij[2]) :
-                ij \in {ij \in MRows(r, std) \X (1..p) :
-                           /\ SColKnown(p, std, ij[2])
-                           /\ Is16(t) \/ ij \in conn}}
-       ELSE {Eq(IF ColSys(t) THEN ij[2] ELSE 0, ij[1], ij[2]) :
-                ij \in {ij \in (1..p) \X MCols(c, std) :
-                           /\ SRowKnown(p, std, ij[1])
-                           /\ Is16(t) \/ ij \in conn}}
+(* everything about one standard, computed once (TLCEval forces the lazily *)
+(* evaluated functions and sets so that they are not recomputed on every  *)
+(* application)                                                           *)
+Analysis(t, r, c, std) ==
+    LET p     == Ports(r, c)
+        k     == TLCEval(SKnow(p, std))
+        conn  == TLCEval(ConnectedK(p, k))
+        mrows == MRows(r, std)
+        mcols == MCols(c, std)
+        colK  == TLCEval({j \in 1..p : \A i \in 1..p : k[<<i, j>>] # "u"})
+        rowK  == TLCEval({i \in 1..p : \A j \in 1..p : k[<<i, j>>] # "u"})
+        eqs   == IF IsT(t)
+                 THEN {Eq(0, ij[1], ij[2]) :
+                          ij \in {ij \in mrows \X colK : Is16(t) \/ ij \in conn}}
+                 ELSE {Eq(IF ColSys(t) THEN ij[2] ELSE 0, ij[1], ij[2]) :
+                          ij \in {ij \in rowK \X mcols : Is16(t) \/ ij \in conn}}
+        leak  == IF OutsideLeak(t)
+                 THEN {ij \in mrows \X mcols : ij[1] # ij[2] /\ ij \notin conn}
+                 ELSE {}
+    IN [k |-> k, conn |-> conn, eqs |-> TLCEval(eqs), leak |-> TLCEval(leak)]
 
-EqCount(t, r, c, std, sys) ==
-    Cardinality({e \in Equations(t, r, c, std) : e.sys = sys})
+Equations(t, r, c, std) == Analysis(t, r, c, std).eqs
+
+EqCountIn(eqs, sys) == Cardinality({e \in eqs : e.sys = sys})
+
+EqCount(t, r, c, std, sys) == EqCountIn(Equations(t, r, c, std), sys)
 
 (* given off-diagonal M cells whose two ports have no signal path through  *)
 (* the standard: what is measured there is leakage                         *)
-LeakCells(t, r, c, std) ==
-    IF OutsideLeak(t)
-    THEN {ij \in MRows(r, std) \X MCols(c, std) :
-             ij[1] # ij[2] /\ ij \notin Connected(Ports(r, c), std)}
-    ELSE {}
+LeakCells(t, r, c, std) == Analysis(t, r, c, std).leak
 
 (* The expanded terms of equation e: x the error term, m the M cell and s  *)
 (* the S cell multiplying it (<<0,0>> = none), neg its sign in the forms   *)
@@ -290,7 +300,7 @@ ETerm(x, m, s, neg) == [x |-> x, m |-> m, s |-> s, neg |-> neg]
 
 Terms(t, r, c, std, e) ==
     LET p   == Ports(r, c)
-        k   == SKnow(p, std)
+        k   == TLCEval(SKnow(p, std))
         i   == e.row
         j   == e.col
         sys == e.sys
@@ -318,11 +328,12 @@ Terms(t, r, c, std, e) ==
 (* every factor of every term of a generated equation is available *)
 EquationWellFormed(t, r, c, std, e) ==
     LET p == Ports(r, c)
+        k == TLCEval(SKnow(p, std))
     IN \A tm \in Terms(t, r, c, std, e) :
           /\ tm.x \in SystemTerms(t, r, c)
           /\ tm.x.sys = e.sys
           /\ tm.m # None => tm.m \in MRows(r, std) \X MCols(c, std)
-          /\ tm.s # None => SKnow(p, std)[tm.s] = "g"
+          /\ tm.s # None => k[tm.s] = "g"
 
 -----------------------------------------------------------------------------
 (* A whole calibration: a sequence of accepted standards                   *)
@@ -353,7 +364,7 @@ NF(t, r, c, std) ==
     LET eqs == Equations(t, r, c, std)
     IN [eqs   |-> eqs,
         terms |-> [e \in eqs |-> Terms(t, r, c, std, e)],
-        sknow |-> SKnow(Ports(r, c), std)]
+        sknow |-> TLCEval(SKnow(Ports(r, c), std))]
 
 (* the standard seen after renumbering the VNA ports by the permutation    *)
 (* pi (a function on 1..ports)                                             *)
